@@ -574,10 +574,15 @@ def b_callable(ex, path, ca, node):
     v = ca.pos[0]
     if isinstance(v, (Clo, BM)):
         return [(path, B(z3.BoolVal(True)))]
+    if isinstance(v, NoneV):
+        return [(path, B(z3.BoolVal(False)))]
     if isinstance(v, O):
-        fn = getattr(class_model(v.cls), "callable_fn", None)
+        m = class_model(v.cls)
+        fn = getattr(m, "callable_fn", None)
         if fn is not None:
             return [(path, B(fn(path, v)))]
+        if m._find("methods", "__call__") is not None:  # the modelled class defines __call__
+            return [(path, B(v.e != NONE if v.cls.startswith("Opt[") else z3.BoolVal(True)))]
     raise Unsupported(f"callable() of {v}")
 
 
